@@ -19,12 +19,12 @@ CHECKS = {
  "C12": ("exploration", "3.C12", "Entry/RawEntryMut method chains of depth <= 4 on keys chosen by location class; every accessor against the model; references returned by inserting calls written through and read back.", "deterministic simulation: handle chains vs reference model"),
  "C13": ("exploration", "3.C13", "Set histories and set algebra between three sets in independent phases against BTreeSet (fault-free configuration).", "deterministic simulation: seeded histories vs reference model"),
  "C14": ("exploration", "3.C14", "Metamorphic: three maps and three sets are brought to the same contents by different histories (permuted order, detours, capacity games, extend), capacities, resize phases and hasher states; ==, lookups of every key, every iterator and Debug must agree with the common model; then one value / one element is changed (preferably in the old table) and == must turn false.", "deterministic simulation: metamorphic histories, hasher state as the varied nondeterminism"),
+ "C15": ("exploration", "3.C15", "Real rayon 1.12 plumbing, hashbrown's parallel raw iterator and griddle's rayon glue run over a simulator-owned rayon-core replacement on shuttle: seeded coins decide which half of every join is stolen (so rayon's own Splitter builds different split trees), shuttle's seeded random/PCT scheduler decides the interleaving; per-element visit counters and in-use flags, collected multisets, par_extend/from_par_iter vs sequential extend, par_eq/par_is_* vs sequential predicates. Pool sizes 1..16, any resize phase.", "deterministic simulation: simulator-owned work-stealing decisions + shuttle schedules"),
  "C16": ("exploration", "3.C16", "serde_test token streams derived from len()+iter() (exact length, each element once, iteration order), round trip through Deserialize, and deserialize_in_place into destinations in any phase from a simulator-owned stream with lying size hints and failures at the k-th element. Plain element class only.", "deterministic simulation: in-memory serde streams with lying hints and stream failures"),
  "C17": ("exploration", "3.C17", "The same seeded schedule (incl. sizes near usize::MAX, injected panics, allocation failures) executed by a debug-assertions+overflow-checks binary and an optimised binary with both off; transcripts (results, len, capacity, hook state, final contents) compared line by line; any undocumented panic or process death in either build is a violation.", "deterministic simulation: one schedule, two builds, transcript diff"),
 }
 
 PENDING = {
- "C15": "claimed by the design (section 3.C15); the shuttle-scheduled rayon-core stand-in is not built yet in this commit",
 }
 
 def main():
